@@ -154,7 +154,7 @@ Definition case_decode (input obs : json) : verdict :=
   (* Holder::verify / Verifier::verify on token~ : same acceptance, same header *)
   let O := {| o_hash := fun _ s => s; o_dec := fun _ => DErr; o_jwt := fun t => decode_model W t v;
               o_kb := fun _ _ _ => Fail; o_claims := fun _ => Err |} in
-  let sd := token ++ "~" in
+  let sd := match jget "sd" input with JStr s => s | _ => token ++ "~" end in
   let expect_sd := jstr_or_empty (jget "expect_sd" input) in
   let mh := obs_of_out (fun r : json * json * list dpath => let '(h, c, _) := r in JArr [h; c]) (holder_verify O sd) in
   let mv := obs_of_out (fun r : json * json => let '(h, c) := r in JArr [h; c]) (verifier_verify O sd false) in
